@@ -11,12 +11,13 @@
 (* observation record must say.                                             *)
 (***************************************************************************)
 EXTENDS Integers, Sequences, FiniteSets, SequencesExt, TLC, Json, TLCExt
-Scenarios == [api : {"receive", "call", "upgrade-receive", "send"},
+StubApis == {"stub-receive", "stub-upgrade-receive", "stub-call"}    \* the same through generated client stubs (vdriver stubctx)
+Scenarios == [api : {"receive", "call", "upgrade-receive", "send"} \cup StubApis,
               how : {"cancel", "deadline", "precancelled"},
               ctxs : {"same", "other"},
               transport : {"unix", "tcp", "bridge"}]
 (* "send": a Send whose request does not fit the transport while the server is not reading (blocked write) *)
-Wanted == {s \in Scenarios : s.api \in {"call", "send"} => s.ctxs = "same"}
+Wanted == {s \in Scenarios : s.api \notin StubApis /\ (s.api \in {"call", "send"} => s.ctxs = "same")}
 VARIABLE l
 TraceLog == ndJsonDeserialize("trace.ndjson")
 Ev(e) == l <= Len(TraceLog) /\ TraceLog[l].ev = e /\ l' = l + 1
